@@ -1,13 +1,11 @@
 #!/bin/bash
 # tools/revert_test.sh <fix-commit> <property> [tier]
-# Re-introduces the defect repaired by <fix-commit> (reverse patch, working tree only), runs the
-# property's check, restores /repo.  Expected: the check exits 1 with a failing-input replay.
+# Re-introduces the defect repaired by <fix-commit> in a scratch worktree (never in /repo), runs the
+# property's check against it, removes the worktree.  Expected: exit 1 with a failing-input replay.
 set -u
-C=$1; P=$2; T=${3:-quick}
-cd /repo || exit 2
-git diff --quiet || { echo "/repo has uncommitted changes"; exit 2; }
-git show "$C" | git apply -R || { echo "reverse patch does not apply"; exit 2; }
-cd /verif; VERIF_EVIDENCE_DIR=/tmp/verif-selftest-evidence ./check "$P" --tier "$T"; rc=$?
-git -C /repo checkout -- .
+C=$1; P=$2; T=${3:-quick}; N="rev-$C-$P"
+D=$(/verif/tools/scratch_repo.sh new "$N") || exit 2
+( cd "$D" && git show "$C" | git apply -R ) || { echo "reverse patch does not apply"; /verif/tools/scratch_repo.sh rm "$N"; exit 2; }
+cd /verif; VERIF_REPO="$D" VERIF_EVIDENCE_DIR="/tmp/vp-$N-ev" ./check "$P" --tier "$T"; rc=$?
+/verif/tools/scratch_repo.sh rm "$N"
 echo "revert_test $C $P -> exit $rc"
-exit 0
